@@ -718,8 +718,8 @@ def _exact_div(a, b):
     quotient when it is exact, else an exact rational numeral"""
     from fractions import Fraction
     q = a / b
-    fa, fb = Fraction(a), Fraction(b)
-    if Fraction(q) == fa / fb:
+    fa, fb = Fraction(repr(a)), Fraction(repr(b))
+    if Fraction(repr(q)) == fa / fb:
         return q
     return SymReal(core.rv(fa / fb))
 
@@ -749,6 +749,8 @@ def _truediv(a, b):
             return _truediv(a, k)
     if engine().decide(to_real(b) == 0):
         return _truediv(a, 0)
+    if engine().purify_div:
+        return wrap(engine().quotient(to_real(a), to_real(b)))
     return wrap(to_real(a) / to_real(b))
 
 
